@@ -382,6 +382,9 @@ def legs(tier):
     hstep = 40 if tier == 'quick' else 4
     out.append(Leg('histories', fn_history, [[1, i, i + 1] for i in range(24)] + [[2, lo, lo + 1] for lo in range(0, 11520, hstep)], chunk=4,
                    bound='one live map object: inverse -> in-place rotate_by / transform_by -> inverse, compose again; all 24 maps of N=1, every %dth of the 11520 maps of N=2, x (a third of the generators rotating with the map index + 10 generator maps)' % hstep))
+    from .c03 import fn_maps_n3
+    out.append(Leg('N3_bfs', fn_maps_n3, [[r_, 3, 400] for r_ in range(12)] if tier == 'quick' else [[r_, 6, 20000] for r_ in range(18)], chunk=1, exhaustive=False, supplementary=True,
+                   bound='N=3: BFS under the library compose from each generator (depth 3 / 400 maps per root; thorough depth 6 / 20000): compose vs reference, inverse two-sided, validity, action on all 256 strings'))
     out.append(Leg('closure', fn_closure, [[1], [2]], chunk=1, bound='BFS closure under the library compose = the enumerated group (24 / 11520)'))
     z = [[2, 0, 16, 'py']] + [[4, lo, lo + 4096, 'py'] for lo in range(0, 65536, 4096)]
     out.append(Leg('z2inv', fn_z2inv, z, chunk=1, bound='all 16 2x2 and all 65536 4x4 binary matrices (20160 invertible, 45376 singular)'))
